@@ -192,6 +192,23 @@ def run_c15(pid, spec, tier, seed, replay=None):
     return {"violations": viols, "crashes": crashes, "coverage": cov, "trace_files": traces}
 
 
+def run_c01(pid, spec, tier, seed, replay=None):
+    """C01: tunnel-level scenarios + the sender core's gated replay (every atomic-step interleaving of a send with
+    window updates and cancellation: the chunks emitted must add up to the message)"""
+    from . import flow
+    res = run(pid, dict(spec, runner=None), tier, seed, replay)
+    if replay:
+        return res
+    binary = orch.build_harness()
+    d = orch.fresh_dir("run-%s-%s-core" % (pid, tier))
+    viols, cov, states, trans = flow.run(tier, binary, d, stress=0 if tier == "quick" else 500, seed=seed)
+    res["violations"] += viols
+    res["coverage"].update(cov)
+    res["coverage"]["states"] += states
+    res["coverage"]["transitions"] += trans
+    return res
+
+
 def run_c06(pid, spec, tier, seed, replay=None):
     """C06: tunnel-level scenarios (correct and overrunning peers) + the sender core (gated replay and a free-running
     stress of the real sender against a credit-granting peer, both judged by FlowSenderMon)"""
@@ -255,7 +272,7 @@ HANG = "fatal error: all goroutines are asleep - deadlock!"
 MC_DEFAULT = {"quick": ["MC_one"], "thorough": ["MC_one", "MC_err_cancel", "MC_down_cancel", "MC_err_close", "MC_err_shutdown", "MC_two_stepped"]}
 
 PROPS = {
-    "C01": {"level": "model_checking", "model_replay": (60, 600), "mc": {"quick": ["MC_one", "MC_two_stepped"], "thorough": ["MC_one", "MC_two_stepped", "MC_err_cancel", "MC_down_cancel", "MCT_one_close"]},
+    "C01": {"level": "model_checking", "model_replay": (60, 600), "runner": run_c01, "also": ["C13_ChunksAddUp", "C13_Framing"], "mc": {"quick": ["MC_one", "MC_two_stepped"], "thorough": ["MC_one", "MC_two_stepped", "MC_err_cancel", "MC_down_cancel", "MCT_one_close"]},
             "quick": lambda s: gen.fam_data(s, 64) + gen.fam_life(s, 4, policies=("lazy", "slowsrv", "slowcli"), causes=("close", "ctxcancel"), fcs=("fc",))
                                + gen.fam_cancel(s, 4, policies=("lazy", "slowsrv", "slowcli"), fcs=("fc",))
                                + gen.fam_gates(s, 3, gates=["cli.alloc", "cli.new.sent", "car.sent.c2s.new", "car.sent.c2s.msg", "car.sent.s2c.msg", "srv.watch.fired"], faults=("none", "cancel@park", "cancel")),
